@@ -1212,6 +1212,8 @@ class _Run(object):
 
     def method(self, base, attr, e, argv, kwv, st, node):
         self.an.op(self.fi, node, ".%s() on %r" % (attr, base))
+        if attr in ("acquire", "release") and "lock" in dump(e.func.value).lower():
+            return BOOL          # threading.Lock / RLock methods do not raise
         if base.types <= frozenset(["obj"]) and base.cls is not None:
             for ci in self.prog.classes.values():
                 if ci.name == base.cls:
@@ -1230,6 +1232,8 @@ class _Run(object):
                 return ANY
             if attr in LOGGER_METHODS:
                 return NONE
+            if attr in ("acquire", "release") and "lock" in dump(e.func.value).lower():
+                return BOOL          # threading.Lock / RLock methods do not raise
             if attr == "enqueue":
                 # listed exception: raises only queue.Full on a bounded queue after the timeout (outside the domain)
                 return obj("FutureResult")
